@@ -70,11 +70,11 @@ theorem C01_struct_toStruct_total (st : StructTy) (props : List (String × SProp
 /-- **map -> struct -> map.** For a well-formed, exactly typed pair and a converted map `m`, what
     `serializeStruct` / `validateStruct` read from the struct built from `m` is `expectedBack`:
     per property, in table order, `readBack` of what `m` held. The losses are exactly these:
-    * a supplied value that is the zero value of a treat-empty-as-default property (whose type is
-      not the empty interface) is gone;
+    * a supplied value that is the zero value of a treat-empty-as-default or disabled property
+      (whose type is not the empty interface) is gone;
     * an absent property whose field is neither a pointer nor an interface comes back holding the
       field's zero value - an optional non-pointer field holding its zero value is
-      indistinguishable from unset - unless the property is treat-empty-as-default. -/
+      indistinguishable from unset - unless the property is treat-empty-as-default or disabled. -/
 theorem C01_struct_fromStruct_toStruct (st : StructTy) (props : List (String × SProp)) (m fs : List (String × SV))
     (hwf : WFObj st props) (hex : exactObjB st props = true) (hm : ConvertedMap props m)
     (h : toStruct st props m = .ok fs) :
@@ -171,15 +171,15 @@ theorem lookupS_expectedBack (st : StructTy) (props : List (String × SProp)) (m
   exact key props hwf.keys hkp
 
 /-- **No loss.** When every property absent from `m` sits on a pointer or interface field (or is
-    treat-empty-as-default) and no supplied value of a treat-empty-as-default property is the zero
-    value, the map read back from the struct equals `m` as a finite map: same value under every
+    treat-empty-as-default or disabled) and no supplied value of a treat-empty-as-default (or
+    disabled) property is the zero value, the map read back from the struct equals `m` as a finite map: same value under every
     key. -/
 theorem C01_struct_lossless (st : StructTy) (props : List (String × SProp)) (m fs : List (String × SV))
     (hwf : WFObj st props) (hex : exactObjB st props = true) (hm : ConvertedMap props m)
     (habsent : ∀ kp, kp ∈ props → lookupS kp.1 m = none → ∀ f, fieldFor st kp.1 = some f →
-      (f.ty.isPtr || f.ty == .iface || kp.2.emptyIsDefault) = true)
+      (f.ty.isPtr || f.ty == .iface || kp.2.disabled || kp.2.emptyIsDefault) = true)
     (hzero : ∀ kp, kp ∈ props → ∀ v, lookupS kp.1 m = some v →
-      (kp.2.emptyIsDefault && reflTy kp.2.ty != .iface && v.isZero) = false)
+      ((kp.2.disabled || kp.2.emptyIsDefault) && reflTy kp.2.ty != .iface && v.isZero) = false)
     (h : toStruct st props m = .ok fs) :
     ∃ raw, fromStruct st props fs = .ok raw ∧ ∀ k, lookupS k raw = lookupS k m := by
   refine ⟨_, C01_struct_fromStruct_toStruct st props m fs hwf hex hm h, ?_⟩
@@ -529,8 +529,8 @@ theorem C04_struct_unexported_panics (st : StructTy) (props : List (String × SP
         obtain ⟨ak, ap⟩ := a
         rw [fromStruct_cons] at hc
         simp only [readProp, hg, hgv] at hc
-        have hrf : (∃ o, readField g (reflTy ap.ty) ap.emptyIsDefault gv = .ok o) ∨
-            readField g (reflTy ap.ty) ap.emptyIsDefault gv = .panic := by
+        have hrf : (∃ o, readField g (reflTy ap.ty) ap.disabled ap.emptyIsDefault gv = .ok o) ∨
+            readField g (reflTy ap.ty) ap.disabled ap.emptyIsDefault gv = .panic := by
           unfold readField
           split
           · simp
@@ -539,13 +539,15 @@ theorem C04_struct_unexported_panics (st : StructTy) (props : List (String × SP
             · split
               · simp
               · split
-                · unfold emptyLike
-                  split
-                  · simp [Out.bind]
-                  · split
-                    · simp [Out.bind]
-                    · split <;> simp [Out.bind]
                 · simp
+                · split
+                  · unfold emptyLike
+                    split
+                    · simp [Out.bind]
+                    · split
+                      · simp [Out.bind]
+                      · split <;> simp [Out.bind]
+                  · simp
         rcases hrf with ⟨o, ho⟩ | ho
         · rw [ho] at hc
           simp only [Out.bind] at hc
@@ -607,7 +609,7 @@ theorem C03_struct_parent_default_kept : ∀ (defs data : List (String × V)) (k
     Validate and Serialize panic whenever the field holds a (non-nil) value. -/
 theorem C04_struct_empty_unconvertible_panics (f : Field) (src : GoTy) (fv : SV) (hexp : f.exported = true)
     (hconv : convOK (elemTy f.ty src) src = false) (hnil : fv.isNilPtr = false)
-    (hni : (fieldValue src fv).isNilIface = false) : readField f src true fv = .panic := by
+    (hni : (fieldValue src fv).isNilIface = false) : readField f src false true fv = .panic := by
   simp [readField, hnil, hexp, hni, emptyLike, hconv, Out.bind]
 
 /-! ### non-vacuity: a non-trivial well-formed, exactly typed instance, and the documented oddities -/
